@@ -622,6 +622,10 @@ MultiOpCls == {"concat", "stack", "vhstack", "dcstack", "block", "append", "bcas
    "searchsorted", "digitize", "interp", "trapezoid", "gradient", "hist", "hist2d", "histdd", "cov", "cov2",
    "solve", "lstsq", "tensorsolve", "types", "share_self", "diff", "ediff1d", "full_like", "average", "bincount",
    "nd.dot", "nd.clip", "nd.searchsorted", "nd.choose", "nd.put", "nd.setitem"}
+\* LAPACK's iterative routines are undefined on infinities (numpy.linalg.svd of a matrix holding inf does not return in
+\* NumPy 2.5 / OpenBLAS): the inf data class is not run on the linear-algebra classes
+LapackCls == {"la1", "la_sym", "svd", "norm", "pinv", "solve", "lstsq", "tensorinv", "tensorsolve", "matrix_power", "la_kw", "qr", "rank"}
+DataOK(cls, dc) == ~(dc = "inf" /\ cls \in LapackCls)
 Aliases == {"S", "V"}
 SpecialDC == {"nan", "inf", "nz"}
 
@@ -715,6 +719,10 @@ KwBase(g) == IF "pos" \in Groups[g].t THEN "pos" ELSE CHOOSE t \in Groups[g].t :
 \* ---- what C06 demands per class -----------------------------------------------------------------
 \* result values are unspecified (np.empty_like) or text that legitimately mentions the unit
 NoValueCls == {"empty", "text"}
+\* nanmax / nanmin: NumPy ITSELF computes ndarray subclasses by another routine (amax/amin after NaN replacement instead of
+\* fmax/fmin.reduce); among tied zeros the two pick different signs.  NumPy's choice, not unyt's: the sign of a zero is
+\* not demanded there (o.valz = values equal up to the sign of zeros); everywhere else -0.0 and +0.0 are different numbers.
+ZeroSignFreeCls == {"red_nm"}
 \* the 19 functions unyt declares unsupported: NEP 18 TypeError; "raises" satisfies the statement
 RefuseCls == {"unsup"}
 \* functions documented to refuse units (cumulative products have no single unit)
@@ -734,9 +742,13 @@ C_Fails(c, o) ==
   ELSE (IF o.n THEN {} ELSE {"structure"})
        \cup (IF o.n /\ ~o.shp THEN {"shape"} ELSE {})
        \cup (IF o.n /\ ~o.knd THEN {"kind"} ELSE {})
-       \cup (IF o.n /\ o.shp /\ ~o.val /\ c.cls \notin NoValueCls THEN {"values"} ELSE {})
+       \cup (IF o.n /\ o.shp /\ ~(IF c.cls \in ZeroSignFreeCls THEN o.valz ELSE o.val) /\ c.cls \notin NoValueCls THEN {"values"} ELSE {})
        \cup (IF ~o.tgt THEN {"target"} ELSE {})
        \cup (IF ~o.tknd THEN {"target-kind"} ELSE {})
+       \* the effect on the INPUTS is part of "which computation is carried out": after the call every input object (and
+       \* the buffer it views) holds what NumPy leaves in the stripped input - untouched unless NumPy documents otherwise
+       \* (sort(), partition, overwrite_input=True given by the caller, in-place functions), and then changed alike
+       \cup (IF ~o.inp THEN {"inputs"} ELSE {})
 \* ---- T: dispatch / forwarding protocol as transcribed from unyt -------------------------------------
 \* array.py:2050-2068: unsupported -> NotImplemented (TypeError); handled -> handler; default -> func._implementation
 \* the routine a handler forwards to (its own _implementation unless listed)
